@@ -43,6 +43,9 @@ def run(ctx):
               "the program that keeps a reference beyond its store now type-checks: " + what + " no longer holds")
     ctx.instances["C15.witnesses"] = len(WITNESSES)
     reloc(ctx, s)
+    from . import storage
+    storage.appender_callers(ctx, s, need_write_txn=False)
+    storage.append_order_in_dependency(ctx, s)
 
 
 def reloc(ctx, s):
